@@ -187,6 +187,9 @@ type LeafRun struct {
 	Extra  int                           // responses beyond one per request
 
 	stmtJSON []byte // the parsed statement in its JSON form (for DeliverClone)
+
+	Planned  []byte   // the root's statement after its plan stage, in its JSON form
+	Payloads [][]byte // by leaf index: the statement payload of the request the root sent to that leaf
 }
 
 type clusterChooser = chooser
@@ -249,11 +252,14 @@ func (c *Cluster) LeafResponses(q string, tr timeutil.TimeRange, leaves []Leaf) 
 		return nil, planErr, err
 	}
 	run = &LeafRun{stmtJSON: stmtJSON, Leaves: leaves, Resps: make([]*protoCommonV1.TaskResponse, len(leaves)), Errs: make([]string, len(leaves))}
+	run.Planned, _ = root.Deps.Statement.MarshalJSON()
+	run.Payloads = make([][]byte, len(leaves))
 	for i, l := range leaves {
 		r, ok := tm.reqs[l.Node]
 		if !ok {
 			return nil, nil, fmt.Errorf("no request was sent to leaf %s", l.Node)
 		}
+		run.Payloads[i] = append([]byte(nil), r.Payload...)
 		st := &stream{ch: make(chan *protoCommonV1.TaskResponse, 4)}
 		node := &models.StatefulNode{StatelessNode: parseNode(l.Node), ID: models.NodeID(i + 1)}
 		proc := query.NewLeafTaskProcessor(node, &nodeEngine{Engine: c.Engine, node: l.Node, db: c.DBName}, &serverFactory{s: st})
